@@ -46,7 +46,7 @@ REF_NAMES = {'matches': {2: ['input', 'pattern']}, 'replace': {3: ['input', 'pat
 
 # ------------------------------------------------------------------ canonical forms
 def dnum(c, e):
-    return Decimal(c).scaleb(e)
+    return Decimal('%dE%d' % (c, e))      # exact, independent of the context precision
 
 
 def norm_impl(j):
@@ -188,10 +188,14 @@ def ref_call(name, args):
     """returns (specified value, known-finding key or None, value the pinned suite asks for or None); raises KeyError when there is no reference"""
     a = [norm_v(x) for x in args]
     if name == 'matches':
+        if len(a) == 3:
+            raise KeyError          # flags: the regex dialect is not modelled
         if len(a) == 2 and isinstance(a[0], str) and isinstance(a[1], str):
             return a[1] in a[0]
         return None
     if name == 'replace':
+        if len(a) == 4:
+            raise KeyError
         if len(a) == 3 and all(isinstance(x, str) for x in a):
             return a[0].replace(a[1], a[2])
         return None
@@ -228,6 +232,8 @@ def ref_call(name, args):
     if name == 'sort':
         if len(a) != 2 or args[0].kind != 'list' or args[1].kind != 'function':
             return None
+        if not args[1].feel.startswith('function(x, y)'):
+            return None             # the ordering function must take two parameters
         items = args[0].items
         desc = '>' in args[1].feel
         kinds = set(i.kind for i in items)
